@@ -76,6 +76,9 @@ fn main() {
         let pk: Key<V, Public> = key(&h(m, "public_key"));
         let r = SealedToken::<V, Public, Raw, Vec<u8>>::from_str(s(m, "token_public")).and_then(|t| t.unseal(&pk, &aad, &nv()));
         out("verify", r.map(|u| u.claims.0 == h(m, "claims") && u.footer == h(m, "footer")).unwrap_or(false));
+        // the purpose-named entry points exist in a verify-only build as well
+        let r = SealedToken::<V, Public, Raw, Vec<u8>>::from_str(s(m, "token_public")).and_then(|t| t.verify_with_aad(&pk, &aad, &nv()));
+        out("verify-by-name", r.map(|u| u.claims.0 == h(m, "claims")).unwrap_or(false));
         let r = SealedToken::<V, Public, Raw, Vec<u8>>::from_str(s(m, "token_public_bad")).and_then(|t| t.unseal(&pk, &aad, &nv()));
         out("verify-rejects-forgery", r.is_err());
         out("public-key-text", pk.to_string() == s(m, "public_key_text"));
@@ -107,6 +110,8 @@ fn main() {
             }
             Err(_) => out("sign", false),
         }
+        let t = UnsealedToken::<V, Public, Raw>::new(Raw(h(m, "claims"))).with_footer(h(m, "footer")).sign_with_aad(&sk, &aad).map(|t| t.to_string());
+        out("sign-by-name", t.is_ok());
     }
     #[cfg(feature = "decrypting")]
     {
@@ -116,6 +121,8 @@ fn main() {
         out("decrypt", r.map(|u| u.claims.0 == h(m, "claims") && u.footer == h(m, "footer")).unwrap_or(false));
         let r = SealedToken::<V, Local, Raw, Vec<u8>>::from_str(s(m, "token_local_bad")).and_then(|t| t.unseal(&lk, &aad, &nv()));
         out("decrypt-rejects-forgery", r.is_err());
+        let r = SealedToken::<V, Local, Raw, Vec<u8>>::from_str(s(m, "token_local")).and_then(|t| t.decrypt_with_aad(&lk, &aad, &nv()));
+        out("decrypt-by-name", r.map(|u| u.claims.0 == h(m, "claims")).unwrap_or(false));
         offers::<Local>(m, "offers_local", "key-offers-local");
         let mut same = true;
         let mut n = 0;
@@ -132,6 +139,8 @@ fn main() {
         let lk: Key<V, Local> = key(&h(m, "local_key"));
         let t = UnsealedToken::<V, Local, Raw>::new(Raw(h(m, "claims"))).with_footer(h(m, "footer")).dangerous_seal_with_nonce(&lk, &aad, h(m, "nonce"));
         out("encrypt-with-nonce", t.map(|t| t.to_string() == s(m, "token_local_from_nonce")).unwrap_or(false));
+        let t = UnsealedToken::<V, Local, Raw>::new(Raw(h(m, "claims"))).with_footer(h(m, "footer")).encrypt_with_aad(&lk, &aad).map(|t| t.to_string());
+        out("encrypt-by-name", t.is_ok());
     }
     #[cfg(feature = "id")]
     {
